@@ -170,7 +170,7 @@ def monitor_run(cmd, block):
         if not (val == fchk):
             bad.append(("monitor:%s:%s" % (alg, "%s:nonfinite-or-no-convergence" % lowdim if (alg == "VDCMA" and n < 5) else "value"),
                         "`%s` step %s: reported value %r != objective at the (closest feasible) reported point %r" % (cmd, st, val, fchk))); break
-        if alg in ("ECMA", "SIMPLEX") and prev_val is not None and val > prev_val and fid not in (3, 5, 7):
+        if alg in ("ECMA", "SIMPLEX") and prev_val is not None and val > prev_val and fid not in (3, 5, 7, 13, 14):
             bad.append(("monitor:%s:elitist-worse" % alg, "`%s` step %s: reported value got worse: %r -> %r" % (cmd, st, prev_val, val))); break
         prev_val = val
     if alg == "VDCMA" and n < 5:
@@ -202,8 +202,8 @@ def gen_runs(rng, nbase):
         alg = algs[i % len(algs)]
         n = rng.randint(2, 10)
         if alg == "VDCMA" and rng.random() < 0.7: n = rng.randint(5, 10)
-        fid = rng.choice([0, 1, 2, 4, 6, 0, 1, 3, 5])
-        if alg == "SIMPLEX" and fid in (3, 5): fid = 2    # SimplexDownhill has no constraint handling at all (never calls isFeasible/closestFeasible)
+        fid = rng.choice([0, 1, 2, 4, 6, 0, 1, 3, 5, 13, 14])   # 13 / 14: boxed objectives started from an infeasible point
+        if alg == "SIMPLEX" and fid in (3, 5, 13, 14): fid = 2    # SimplexDownhill has no constraint handling at all (never calls isFeasible/closestFeasible)
         if alg == "ECMA" and fid in (3, 5) and rng.random() < 0.5: fid = 2
         seed = rng.randint(1, 10 ** 6)
         steps = rng.randint(5, 40)
